@@ -309,6 +309,50 @@ K_ITEM = ElemKind('item', ITEM_SORT, VItem, _unwrap_t('item'))
 K_INT = ElemKind('int', z3.IntSort(), VInt, _unwrap_t('int'))
 
 
+_Itv = z3.Datatype('Itv')
+_Itv.declare('mk_itv', ('lo', z3.IntSort()), ('hi', z3.IntSort()), ('isint', z3.BoolSort()))
+ITV_SORT = _Itv.create()
+
+
+class VItv(Val):
+    """An element of a code point list: an int c (read as [c, c+1)) or a (lo, hi) tuple.
+    isint tells which; for an int, lo is its value."""
+
+    def __init__(self, t):
+        self.t = t
+
+    @property
+    def lo(self):
+        return z3.simplify(ITV_SORT.lo(self.t))
+
+    @property
+    def hi(self):
+        return z3.simplify(ITV_SORT.hi(self.t))
+
+    @property
+    def isint(self):
+        return z3.simplify(ITV_SORT.isint(self.t))
+
+    def rep(self):
+        raise OutOfSubset('representative of a symbolic int-or-tuple item')
+
+    def __repr__(self):
+        return f'VItv({self.t})'
+
+
+def _itv_unwrap(v):
+    if isinstance(v, VItv):
+        return v.t
+    if isinstance(v, VInt):
+        return ITV_SORT.mk_itv(v.t, v.t + 1, z3.BoolVal(True))
+    if isinstance(v, VTuple) and len(v.items) == 2 and all(isinstance(i, VInt) for i in v.items):
+        return ITV_SORT.mk_itv(v.items[0].t, v.items[1].t, z3.BoolVal(False))
+    raise OutOfSubset(f'cannot store {v!r} in a code point list')
+
+
+K_ITV = ElemKind('itv', ITV_SORT, VItv, _itv_unwrap)
+
+
 class VSeq(Val):
     """A sequence of symbolic length: (len, Array Int -> elem).  Immutable value
     semantics; list mutation rebinds the fields of the same VSeq object."""
